@@ -2,7 +2,7 @@
    tags come in matching open/close pairs, properly nested, around the content of the span that produced them;
    no tag at all when SRT text formatting is disabled. *)
 From TT Require Import Model.Doc Gen.StyleTables Model.Isd Model.SigTimes Model.TimeCode Model.IsdFilters Gen.CueTables Model.CueWriter.
-From TT Require Import Proofs.Common.ElemInd Proofs.C06.Inline Proofs.C06.Loop.
+From TT Require Import Model.CueTriggers Proofs.Common.ElemInd Proofs.C06.Inline Proofs.C06.Loop.
 
 (* ---- a property of every cue the loops produce ----------------------------------------------------------------------------- *)
 Section CueForall.
@@ -238,10 +238,11 @@ Proof.
 Qed.
 Theorem srt_inline_no_tags : forall e, no_tags (srt_inline false e).
 Proof.
-  induction e as [a cs IH] using elem_ind2. rewrite srt_span_wrap. destruct (e_kind a); try constructor; try (constructor; [reflexivity | constructor]).
-  - cbn [wrap]. unfold no_tags. rewrite Forall_forall. intros i Hi. apply in_flat_map in Hi as (c & Hc & Hi).
+  induction e as [a cs IH] using elem_ind2. rewrite srt_span_wrap. destruct (e_kind a) eqn:Ek; try (constructor; fail).
+  - (* span *) cbn [andb wrap]. unfold no_tags. rewrite Forall_forall. intros i Hi. apply in_flat_map in Hi as (c & Hc & Hi).
     rewrite Forall_forall in IH. specialize (IH c Hc). unfold no_tags in IH. rewrite Forall_forall in IH. apply IH, Hi.
-  - unfold no_tags. rewrite Forall_forall. intros i Hi. apply in_map_iff in Hi as (c & <- & _). reflexivity.
+  - (* br *) constructor; [reflexivity | constructor].
+  - (* text *) unfold no_tags. rewrite Forall_forall. intros i Hi. apply in_map_iff in Hi as (c & <- & _). reflexivity.
 Qed.
 Theorem srt_cues_no_tags seq cs : srt_cues false seq = Ok cs ->
   Forall (fun c => no_tags (c_items c) /\ cue_text esc_none c = normalize_eol (cue_chars c)) cs.
